@@ -467,6 +467,12 @@ pub fn apply_schema(
             ));
         }
 
+        // the primary key (an ordered list) can't change either, even when
+        // every column definition stays the same
+        if !table.pk.iter().eq(new_table.pk.iter()) {
+            return Err(ApplySchemaError::ModifyPrimaryKeys(name.clone()));
+        }
+
         let new_col_names = new_table
             .columns
             .keys()
